@@ -442,6 +442,15 @@ func randomScenario(prop string, rng *rand.Rand) *prodScenario {
 			sc.Interceptors = append(sc.Interceptors, icSpec{kinds[rng.Intn(len(kinds))]})
 		}
 		// mutating interceptors need byte values; all our values are ByteEncoder
+		// a third of the scenarios submit messages the producer must refuse (larger than
+		// MaxMessageBytes): they too are submitted messages and pass the chain once
+		if rng.Intn(3) == 0 && len(sc.Msgs) > 0 && sc.MaxMessageBytes == 0 {
+			sc.MaxMessageBytes = 150
+			for k := 0; k < 1+rng.Intn(2); k++ {
+				ms := sc.Msgs[rng.Intn(len(sc.Msgs))]
+				ms.Value = valueFor(ms.ID, 300, rng)
+			}
+		}
 	}
 	return sc
 }
